@@ -11,8 +11,7 @@ import (
 )
 
 // notApplicable: properties that static analysis cannot address here (DESIGN.md §6).
-var notApplicable = map[string]string{
-}
+var notApplicable = map[string]string{}
 
 func writeManifest() {
 	type level struct {
@@ -99,4 +98,3 @@ func writeManifest() {
 	}
 	fmt.Printf("MANIFEST.json: %d checks, %d not applicable (%v)\n", len(checks), len(nas), eng.SortedKeys(registry))
 }
-
